@@ -101,4 +101,14 @@ def main(argv=None) -> int:
 
 
 if __name__ == "__main__":
-    sys.exit(main())
+    try:
+        code = main()
+    except SystemExit:
+        raise
+    except BaseException as err:  # noqa: BLE001 - a crash of the machinery is never a verdict (exit 1 means VIOLATION)
+        import traceback
+
+        traceback.print_exc()
+        print(f"HARNESS-ERROR {type(err).__name__}: {err}", flush=True)
+        code = 2
+    sys.exit(code)
